@@ -1187,6 +1187,13 @@ func main() {
 		stressChild(n)
 		return
 	}
+	if v := os.Getenv("C05_VIACRON_CHILD"); v != "" {
+		var n int
+		var seed uint64
+		fmt.Sscanf(v, "%d:%d", &n, &seed)
+		viaCronChild(n, seed)
+		return
+	}
 	fl := lib.ParseFlags()
 	res := lib.NewResult("a history is non-trivial if the scheduler was started, at least one job start was observed, and the history contains a Remove, a Stop or a forced add/remove/stop-vs-wake race; distinct = distinct observable traces")
 	verifhook.Set(hookCB)
